@@ -56,11 +56,25 @@ class ScriptSock(FakeSock):
     self.trouble = []          # things the socket API contract forbids (harness-side observations)
     self.peeks = 0
     self.connect_error = None
+    self.hook = None           # fn(sock, "pre"|"post") around every send() call (pre-emption points of the rig)
+    self.fatal_via = None      # "send" / "recv": which kind of socket call reported the first fatal error
+    self.sends_after_recv_fault = 0
+    self.calls_at_rd_shutdown = None   # number of send() calls made before the first shutdown of the read side
 
   def send(self, data, flags=0):
     if not isinstance(data, (bytes, bytearray, memoryview)):
       self.trouble.append("send() called with %s" % type(data).__name__)
       raise TypeError("a bytes-like object is required, not %r" % type(data).__name__)
+    hook = self.hook
+    if hook is None:
+      return self._send(data, flags)
+    hook(self, "pre")
+    try:
+      return self._send(data, flags)
+    finally:
+      hook(self, "post")
+
+  def _send(self, data, flags):
     n = len(data)
     if self.send_script:
       o = self.send_script[0]
@@ -72,6 +86,13 @@ class ScriptSock(FakeSock):
         self.send_script[0] = 0
     before = len(self.sent)
     was_closed = self.closed
+    if self.fatal and not was_closed:
+      # a socket that has reported a fatal error stays dead: every further send() fails (and is counted)
+      self.sends_after_fatal += 1
+      if self.fatal_via == "recv":
+        self.sends_after_recv_fault += 1
+      self.calls.append((self.who(), n, "dead", None))
+      raise BrokenPipeError(errno.EPIPE, os.strerror(errno.EPIPE))
     try:
       k = FakeSock.send(self, data, flags)
     except OSError as e:
@@ -79,6 +100,8 @@ class ScriptSock(FakeSock):
       if oc == "eagain":
         self.eagain += 1
         self.backpressure = True
+      elif self.fatal and self.fatal_via is None:
+        self.fatal_via = "send"
       self.calls.append((self.who(), n, oc, None))
       raise
     self.total += len(self.sent) - before
@@ -89,6 +112,8 @@ class ScriptSock(FakeSock):
     return k
 
   def shutdown(self, how):
+    if how != 1 and self.calls_at_rd_shutdown is None:
+      self.calls_at_rd_shutdown = len(self.calls)
     self.shutdown_at.append((how, self.total))
     FakeSock.shutdown(self, how)
     if how != 1:               # SHUT_RD / SHUT_RDWR: the read side reports end of stream from now on
@@ -103,6 +128,8 @@ class ScriptSock(FakeSock):
         raise OSError(errno.EBADF, "Bad file descriptor")
       if self.connect_error is not None:
         self.fatal = True
+        if self.fatal_via is None:
+          self.fatal_via = "recv"
         code = getattr(errno, self.connect_error)
         raise OSError(code, os.strerror(code))
       if self.inbox:
@@ -110,7 +137,19 @@ class ScriptSock(FakeSock):
       if self.eof:
         return b""
       raise BlockingIOError(errno.EAGAIN, "Resource temporarily unavailable")
+    if self.recv_error is not None and not self.inbox and not self.closed:
+      # a fatal error reported by recv() (connection reset, timed out): the socket is dead from now on
+      self.fatal = True
+      if self.fatal_via is None:
+        self.fatal_via = "recv"
+    if self.fatal and not self.inbox and not self.closed:
+      # a socket whose send() failed fatally reports the error to recv() as well
+      raise ConnectionResetError(errno.ECONNRESET, os.strerror(errno.ECONNRESET))
     return FakeSock.recv(self, n, flags)
+
+  def v_readable(self):
+    # select reports a socket with a pending error readable
+    return FakeSock.v_readable(self) or (self.fatal and not self.closed)
 
   def begin_script(self, script):
     """Forget the handshake traffic and start the scripted part of the case."""
@@ -188,24 +227,61 @@ class Baton(object):
 
 
 class _HandoverLock(object):
-  """DeferredSender._lock with a hand-over point in front of every acquisition by the sender thread."""
+  """DeferredSender._lock with a hand-over point in front of every acquisition by the sender thread, and with
+  the blocking of the cooperative thread modelled: when the harness thread asks for the lock while the sender
+  thread holds it (the sender is parked inside its locked section, at a socket write), the sender runs on until
+  it lets go of the lock and parks right there ("released"); only then does the harness thread get the lock --
+  what a pre-empted sender thread and a cooperative thread blocked in `with self._lock` do for real."""
 
   def __init__(self, real, rig):
     self._real, self._rig = real, rig
+    self.sender_depth = 0
+
+  def _enter(self):
+    rig = self._rig
+    if rig.baton.on_sender():
+      rig._lock_point()
+      return True
+    if self.sender_depth:
+      rig._harness_blocked(self)
+    return False
+
+  def _left(self):
+    self.sender_depth -= 1
+    if self.sender_depth == 0:
+      self._rig._released_point()
 
   def acquire(self, *a, **kw):
-    self._rig._lock_point()
-    return self._real.acquire(*a, **kw)
+    mine = self._enter()
+    r = self._real.acquire(*a, **kw)
+    if mine and r:
+      self.sender_depth += 1
+    return r
 
   def release(self):
-    return self._real.release()
+    mine = self._rig.baton.on_sender()
+    r = self._real.release()
+    if mine:
+      self._left()
+    return r
 
   def __enter__(self):
-    self._rig._lock_point()
-    return self._real.__enter__()
+    mine = self._enter()
+    r = self._real.__enter__()
+    if mine:
+      self.sender_depth += 1
+    return r
 
   def __exit__(self, *a):
-    return self._real.__exit__(*a)
+    mine = self._rig.baton.on_sender()
+    r = self._real.__exit__(*a)
+    if mine:
+      self._left()
+    return r
+
+
+class ClosedDescriptorInSelect(ValueError):
+  """What select.select raises when one of the objects it is handed has fileno() == -1 (a closed socket)."""
 
 
 class _SelectShim(object):
@@ -249,7 +325,7 @@ def _frames(data):
 class ControllerRig(object):
   """Connections + the real DeferredSender on a managed thread."""
 
-  def __init__(self, conns, lockpts=False, interleaver=None):
+  def __init__(self, conns, lockpts=False, interleaver=None, sockpts=0):
     import pox.openflow.of_01 as of_01
     import pox.core
     self.of_01 = of_01
@@ -258,7 +334,16 @@ class ControllerRig(object):
     self.core = pox.core.core
     self.baton = interleaver if interleaver is not None else Baton()
     self.lockpts = bool(lockpts)
+    self.sockpts = int(sockpts or 0)     # bit 0: hand over before, bit 1: after every socket write of the sender thread
     self.lock_yields = 0
+    self.sock_yields = 0
+    self.down_yields = 0
+    self.on_down = [spec.get("on_down") for spec in conns]   # size of the message a ConnectionDown listener sends to the next connection
+    self.listener_send = None      # fn(target index, data, on_sender_thread): told about every listener send before it is made
+    self.listener_errors = []
+    self.harness_waiting = False
+    self.blocked = 0               # cooperative sends that had to wait for the sender's lock
+    self.blocked_log = []          # per wait: what the sender thread did meanwhile
     self.selects = 0
     self.timeouts = 0
     self.sender_error = None
@@ -286,6 +371,8 @@ class ControllerRig(object):
     for i, spec in enumerate(conns):
       s = ScriptSock("c%d" % i)
       s.who = self._who
+      if self.sockpts:
+        s.hook = self._sock_point
       con = of_01.Connection(s)
       self.socks.append(s)
       self.cons.append(con)
@@ -303,10 +390,32 @@ class ControllerRig(object):
     return "t" if self.baton.on_sender() else "h"
 
   def _on_down_nexus(self, ev):
-    for i, c in enumerate(self.cons):
-      if c is ev.connection:
-        self.down_nexus[i] += 1
-        self.down_thread[i] = self._who()
+    # revent swallows what a listener raises: harness trouble is kept in a list instead
+    try:
+      for i, c in enumerate(self.cons):
+        if c is ev.connection:
+          self.down_nexus[i] += 1
+          self.down_thread[i] = self._who()
+          self._down_listener(i)
+    except (HarnessError, SystemExit) as e:
+      self.listener_errors.append(e)
+      raise
+
+  def _down_listener(self, i):
+    """A ConnectionDown listener of the application.  It runs on whichever thread disconnects the connection -- the
+    sender thread after a fatal error during a flush.  Hand-over point "down" (bit 2 of sockpts): the sender thread is
+    pre-empted while the listeners run.  With `on_down` the listener sends a message to the next connection."""
+    on_sender = self.baton.on_sender()
+    if on_sender and (self.sockpts & 4) and not self._torn:
+      self.down_yields += 1
+      self.baton.yield_("down", i)
+    size = self.on_down[i] if i < len(self.on_down) else None
+    if size and len(self.cons) > 1 and not self._torn:
+      t = (i + 1) % len(self.cons)
+      data = message(200 + i, max(8, int(size)))
+      if self.listener_send is not None:
+        self.listener_send(t, data, on_sender)
+      self.cons[t].send(data)
 
   def _on_down_con(self, i):
     self.down_con[i] += 1
@@ -336,12 +445,57 @@ class ControllerRig(object):
     if not self.baton.on_sender():
       raise HarnessError("select called from the harness thread")
     self.selects += 1
+    for c in list(wl) + list(xl):
+      if c in self.cons and self.socks[self.cons.index(c)].closed:
+        # a closed socket's fileno() is -1 (FakeSock keeps its number): the real select refuses it
+        raise ClosedDescriptorInSelect("file descriptor cannot be a negative integer (-1)")
     return self.baton.yield_("select", (list(rl), list(wl), list(xl), timeout))
 
   def _lock_point(self):
     if self.lockpts and not self._torn and self.baton.on_sender():
       self.lock_yields += 1
       self.baton.yield_("lock", None)
+
+  def _sock_point(self, sock, phase):
+    """The sender thread is pre-empted at a socket write (it holds its lock there): "write" = the call has not
+    happened yet, "wrote" = the socket has answered but the sender has not yet acted on the answer."""
+    if self._torn or not self.baton.on_sender():
+      return
+    if self.sockpts & (1 if phase == "pre" else 2):
+      self.sock_yields += 1
+      self.baton.yield_("write" if phase == "pre" else "wrote", sock)
+
+  def _released_point(self):
+    if self.harness_waiting and not self._torn and self.baton.on_sender():
+      self.baton.yield_("released", None)
+
+  def _harness_blocked(self, lock):
+    """Runs on the harness thread, which wants the lock the parked sender thread holds."""
+    if self._torn:
+      raise HarnessError("harness thread needs the sender's lock during teardown")
+    self.harness_waiting = True
+    self.blocked += 1
+    seen = {"disconnected": [c.disconnected for c in self.cons], "writes": 0}
+    try:
+      n = 0
+      while lock.sender_depth and not self.baton.done:
+        if self.at[0] == "select":
+          raise HarnessError("sender thread sits in select() while holding its lock")
+        self.at = self.baton.resume(None)
+        if self.at[0] in ("write", "wrote"):
+          seen["writes"] += 1
+        if self.listener_errors:
+          raise self.listener_errors[0]
+        n += 1
+        if n > 100000:
+          raise HarnessError("sender thread never releases its lock")
+      if self.baton.done and self.baton.exc is not None and self.sender_error is None:
+        self.sender_error = self.baton.exc
+    finally:
+      self.harness_waiting = False
+    seen["disconnected_now"] = [c.disconnected for c in self.cons]
+    seen["flush_complete"] = not self.ds._dataForConnection
+    self.blocked_log.append(seen)
 
   # -- harness-side operations
   def queued(self, i):
@@ -466,10 +620,8 @@ class SwitchRig(object):
         w._connecting = True
         w.connect_handler = lambda w_, i=i: self._on_connect(i)
         if spec.get("refuse"):
-          # a refused connection has no peer bytes; it is only modelled as noticed by _do_send (a socket whose
-          # connect failed would also be reported readable, _do_recv would close the worker and the _do_send of
-          # the same round would call send() on the dead socket and get an error -- a failed connect is not one
-          # of the property's per-send outcomes, so that round is not generated)
+          # a refused connection has no peer bytes; select reports the socket readable and writable, so it is
+          # noticed by _do_recv or by _do_send, whichever the round's masks let run first
           s.connect_error = "ECONNREFUSED"
         elif spec.get("peer"):
           s.feed(b"\x01\x00\x00\x08\x00\x00\x00\x01")     # the peer's first bytes are already there
@@ -513,11 +665,17 @@ class SwitchRig(object):
     rl, wl, xl = self.sel._args[0], self.sel._args[1], self.sel._args[2]
     r = [x for x in rl if x is self.loop.pinger and x.v_readable()]
     r += [x for x in rl if x is not self.loop.pinger and x in self.workers
-          and (rmask >> self.workers.index(x)) & 1 and self.socks[self.workers.index(x)].inbox]
+          and (rmask >> self.workers.index(x)) & 1 and self._sock_readable(self.socks[self.workers.index(x)])]
     w = [x for x in wl if (wmask >> self.workers.index(x)) & 1]
     self.rounds += 1
     self._advance((r, w, []))
     return True
+
+  @staticmethod
+  def _sock_readable(s):
+    """What select reports as readable: peer bytes waiting, end of stream, a pending socket error (a reset
+    connection, a failed asynchronous connect -- such a socket is reported readable AND writable)."""
+    return bool(s.inbox) or s.eof or s.recv_error is not None or s.connect_error is not None
 
   def asked_to_write(self, i):
     return (not self.dead) and self.workers[i] in self.sel._args[1]
